@@ -7,4 +7,4 @@ GEN = ['TarLayout', 'CpioLayout', 'ArLayout']
 ASSUMPTIONS = []
 TRUSTED = []
 MANIFEST = {'text': 'wip', 'note': '', 'technique': 'Lean 4 proof + differential correspondence'}
-ENGINES = [Codec('c10')]
+ENGINES = [Codec('c10'), Codec('c10', bulk=True)]
